@@ -15,6 +15,8 @@ inductive Family where
   | hourly | hourlyByhour | minutely | minutelyByminute | minutelyByhour | minutelyByhm | secondly | secondlyByhm | secondlyBysecond
   | dailyE | hourlyE | hourlyByhourE | minutelyE | minutelyByminuteE | minutelyByhourE | minutelyByhmE
   | secondlyE | secondlyByhmE | secondlyBysecondE | monthlyEaster | weeklyEaster
+  | monthlyNthWeekno | yearlyNthWeekno | yearlyBymonthNthWeekno
+  | monthlyNthEaster | yearlyNthEaster | yearlyBymonthNthEaster | yearlyWeeknoEaster
   deriving Repr, DecidableEq, Inhabited
 
 def Family.name : Family → String
@@ -28,13 +30,19 @@ def Family.name : Family → String
   | .minutelyByhourE => "minutely_byhour_easter" | .minutelyByhmE => "minutely_byhour_byminute_easter"
   | .secondlyE => "secondly_easter" | .secondlyByhmE => "secondly_byhour_byminute_easter"
   | .secondlyBysecondE => "secondly_bysecond_easter" | .monthlyEaster => "monthly_easter" | .weeklyEaster => "weekly_easter"
+  | .monthlyNthWeekno => "monthly_nth_weekno" | .yearlyNthWeekno => "yearly_nth_weekno"
+  | .yearlyBymonthNthWeekno => "yearly_bymonth_nth_weekno"
+  | .monthlyNthEaster => "monthly_nth_easter" | .yearlyNthEaster => "yearly_nth_easter"
+  | .yearlyBymonthNthEaster => "yearly_bymonth_nth_easter" | .yearlyWeeknoEaster => "yearly_weekno_easter"
 
 def Family.all : List Family :=
   [.daily, .weekly, .yearlyMonthly, .monthlyNth, .yearlyNth, .yearlyBymonthNth, .yearlyEaster, .yearlyWeekno,
    .monthlyWeekno, .weeklyWeekno,
    .hourly, .hourlyByhour, .minutely, .minutelyByminute, .minutelyByhour, .minutelyByhm, .secondly, .secondlyByhm, .secondlyBysecond,
    .dailyE, .hourlyE, .hourlyByhourE, .minutelyE, .minutelyByminuteE, .minutelyByhourE, .minutelyByhmE,
-   .secondlyE, .secondlyByhmE, .secondlyBysecondE, .monthlyEaster, .weeklyEaster]
+   .secondlyE, .secondlyByhmE, .secondlyBysecondE, .monthlyEaster, .weeklyEaster,
+   .monthlyNthWeekno, .yearlyNthWeekno, .yearlyBymonthNthWeekno,
+   .monthlyNthEaster, .yearlyNthEaster, .yearlyBymonthNthEaster, .yearlyWeeknoEaster]
 
 /-- the optional list is given, non-empty, and satisfies `P` -/
 def someWith {α} (o : Option (List α)) (P : List α → Prop) : Prop :=
@@ -196,6 +204,18 @@ def SupportedBy (a : Args) : Family → Prop
       someWith a.byeaster (fun el => ∀ o ∈ el, -74 ≤ o ∧ o ≤ 250) ∧
       (a.bysetpos = none ∨ Cal.weekdayOfOrd (Spec.RRule.startOrd a) = a.wkst.getD 0) ∧
       (0 ≤ a.wkst.getD 0 ∧ a.wkst.getD 0 ≤ 6) ∧ untilOk a
+  | .monthlyNthWeekno => a.freq = 1 ∧ baseOk a ∧ a.byeaster = none ∧ nthDays a ∧
+      (0 ≤ a.wkst.getD 0 ∧ a.wkst.getD 0 ≤ 6) ∧ someWith a.byweekno wnoOk
+  | .yearlyNthWeekno => a.freq = 0 ∧ baseOk a ∧ a.byeaster = none ∧ a.bymonth = none ∧ nthDays a ∧
+      (0 ≤ a.wkst.getD 0 ∧ a.wkst.getD 0 ≤ 6) ∧ someWith a.byweekno wnoOk
+  | .yearlyBymonthNthWeekno => a.freq = 0 ∧ baseOk a ∧ a.byeaster = none ∧
+      someWith a.bymonth (fun lm => ∀ m ∈ lm, 1 ≤ m ∧ m ≤ 12) ∧ nthDays a ∧
+      (0 ≤ a.wkst.getD 0 ∧ a.wkst.getD 0 ≤ 6) ∧ someWith a.byweekno wnoOk
+  | .monthlyNthEaster => a.freq = 1 ∧ ebaseOk a ∧ nthDays a
+  | .yearlyNthEaster => a.freq = 0 ∧ ebaseOk a ∧ a.bymonth = none ∧ nthDays a
+  | .yearlyBymonthNthEaster => a.freq = 0 ∧ ebaseOk a ∧ someWith a.bymonth (fun lm => ∀ m ∈ lm, 1 ≤ m ∧ m ≤ 12) ∧ nthDays a
+  | .yearlyWeeknoEaster => a.freq = 0 ∧ baseOk a ∧ plainDays a ∧ (0 ≤ a.wkst.getD 0 ∧ a.wkst.getD 0 ≤ 6) ∧
+      someWith a.byweekno wnoOk ∧ easterOk a
 
 instance (a : Args) (f : Family) : Decidable (SupportedBy a f) := by
   cases f <;> (unfold SupportedBy; exact inferInstance)
@@ -220,8 +240,8 @@ def inRange (a : Args) (f : Family) (n : Nat) : Prop :=
   | .weekly | .weeklyWeekno => Spec.RRule.weekStart (a.wkst.getD 0) (Spec.RRule.startOrd a) + 7 * (n * a.interval) + 7 ≤ Cal.maxOrdinal + 1
   | .yearlyMonthly => (a.freq = 0 → a.dtstart.y + n * a.interval ≤ 9999) ∧
       (a.freq = 1 → (a.dtstart.y * 12 + (a.dtstart.m - 1) + n * a.interval) / 12 ≤ 9999)
-  | .monthlyNth | .monthlyWeekno => (a.dtstart.y * 12 + (a.dtstart.m - 1) + n * a.interval) / 12 ≤ 9999
-  | .yearlyNth | .yearlyBymonthNth | .yearlyWeekno => a.dtstart.y + n * a.interval ≤ 9999
+  | .monthlyNth | .monthlyWeekno | .monthlyNthWeekno => (a.dtstart.y * 12 + (a.dtstart.m - 1) + n * a.interval) / 12 ≤ 9999
+  | .yearlyNth | .yearlyBymonthNth | .yearlyWeekno | .yearlyNthWeekno | .yearlyBymonthNthWeekno => a.dtstart.y + n * a.interval ≤ 9999
   | .yearlyEaster => 1583 ≤ a.dtstart.y ∧ a.dtstart.y + n * a.interval ≤ 4099
   | .hourly => Spec.RRule.startOrd a * 24 + a.dtstart.hh + (24 * n + 1) * a.interval + 23 < (Cal.maxOrdinal + 1) * 24
   | .hourlyByhour =>
@@ -254,9 +274,10 @@ def inRange (a : Args) (f : Family) (n : Nat) : Prop :=
   | .secondlyByhmE | .secondlyBysecondE => 1583 ≤ a.dtstart.y ∧
       ((Spec.RRule.startOrd a * 24 + a.dtstart.hh) * 60 + a.dtstart.mm) * 60 + a.dtstart.ss +
       (172800 * n + 86400) * a.interval + 86399 < (Cal.toOrdinal 4099 12 31 + 1) * 86400
-  | .monthlyEaster => 1583 ≤ a.dtstart.y ∧ (a.dtstart.y * 12 + (a.dtstart.m - 1) + n * a.interval) / 12 ≤ 4099
+  | .monthlyEaster | .monthlyNthEaster => 1583 ≤ a.dtstart.y ∧ (a.dtstart.y * 12 + (a.dtstart.m - 1) + n * a.interval) / 12 ≤ 4099
   | .weeklyEaster => 1583 ≤ a.dtstart.y ∧
       Spec.RRule.weekStart (a.wkst.getD 0) (Spec.RRule.startOrd a) + 7 * (n * a.interval) + 7 ≤ Cal.toOrdinal 4099 12 31 + 1
+  | .yearlyNthEaster | .yearlyBymonthNthEaster | .yearlyWeeknoEaster => 1583 ≤ a.dtstart.y ∧ a.dtstart.y + n * a.interval ≤ 4099
 
 /-- the BYEASTER-below-YEARLY families -/
 def Family.isEasterSub : Family → Bool
